@@ -247,6 +247,11 @@ where
                     if rng.chance(1, 5) {
                         b = a;
                     }
+                    if rng.chance(1, 10) {
+                        // a value over the whole domain (stored at the root place only)
+                        a = lo;
+                        b = hi;
+                    }
                     if a > b {
                         std::mem::swap(&mut a, &mut b);
                     }
